@@ -4,11 +4,13 @@
 -/
 import Driver.Util
 import Driver.ElimTree
+import Driver.Overstatement
 open Lean Shangrla Shangrla.Drv
 
 def dispatch (g op : String) (a : Json) : R Json :=
   match g with
   | "elimtree" => ElimTreeH.handle op a
+  | "overstatement" => OverstatementH.handle op a
   | _ => throw s!"unknown group {g}"
 
 def handleLine (line : String) : String :=
